@@ -1,9 +1,151 @@
 """C11 - only configurable parameters of registered configurables can ever be bound."""
+import dataclasses as _dataclasses
+import functools as _functools
+import os as _os
+import sys as _sys
+
 import gin
 from gin import config as gc
 from vf import rt
 from vf import world
 
+DA, DB = world.DA, world.DB
+
+
+# ---- extra probe configurables (module path `vw11`), registered once per process ---------------------
+def _define_probes():
+  if 'vw11.akw' in gc._REGISTRY:       # idempotent (the module may be imported under two names)
+    return
+  rec = world.rec
+
+  # **kwargs configurables WITH a list: the catch-all does not override the lists
+  @gin.configurable(module='vw11', allowlist=['x'])
+  def akw(a=DA, **kw):
+    rec('akw', a, **kw)
+    return (a, kw)
+
+  @gin.configurable(module='vw11', denylist=['z'])
+  def dkw(a=DA, **kw):
+    rec('dkw', a, **kw)
+    return (a, kw)
+
+  # degenerate (empty) and tuple-valued lists
+  @gin.configurable(module='vw11', allowlist=[])
+  def a_empty(a=DA, b=DB):
+    rec('a_empty', a, b)
+    return (a, b)
+
+  @gin.configurable(module='vw11', denylist=())
+  def d_empty(a=DA, b=DB):
+    rec('d_empty', a, b)
+    return (a, b)
+
+  @gin.configurable(module='vw11', allowlist=('a',))
+  def a_tup(a=DA, b=DB):
+    rec('a_tup', a, b)
+    return (a, b)
+
+  @gin.configurable(module='vw11', denylist=('b',))
+  def d_tup(a=DA, b=DB):
+    rec('d_tup', a, b)
+    return (a, b)
+
+  # classes without a construction function of their own / with unusual ones
+  @gin.configurable(module='vw11')
+  class Bare:
+    pass
+
+  @gin.register(module='vw11')
+  class BareR:
+    pass
+
+  class _Base:
+
+    def __init__(self, a=DA):
+      rec('Sub', a)
+
+  @gin.configurable(module='vw11')
+  class Sub(_Base):
+    pass
+
+  @gin.configurable(module='vw11')
+  class OnlyNew:
+
+    def __new__(cls, a=DA):
+      rec('OnlyNew', a)
+      return object.__new__(cls)
+
+  @gin.configurable(module='vw11')
+  @_dataclasses.dataclass
+  class DC:
+    a: int = DA
+
+  # positional-only first parameter
+  @gin.configurable(module='vw11')
+  def po(a=DA, /, b=DB):
+    rec('po', a, b)
+    return (a, b)
+
+  # callable shapes through external_configurable
+  def _f(a=DA, b=DB):
+    rec('f', a, b)
+    return (a, b)
+
+  gin.external_configurable(_functools.partial(_f, a=1), 'pk', module='vw11')   # keyword pre-bound
+  gin.external_configurable(_functools.partial(_f, 1), 'pp', module='vw11')     # positionally pre-bound: `a` is gone
+
+  def _g(a=DA, b=DB):
+    rec('g', a, b)
+    return (a, b)
+
+  @_functools.wraps(_g)
+  def _narrow(a=DA):          # a functools.wraps wrapper whose OWN signature is narrower than the wrapped one
+    return _g(a, 5)
+
+  gin.external_configurable(_narrow, 'narrow', module='vw11')
+
+  class _Inst:
+
+    def __call__(self, a=DA):
+      rec('inst', a)
+      return a
+
+  gin.external_configurable(_Inst(), 'inst', module='vw11')
+
+  # two registered classes each with a registered method of the same name: the bare method name is ambiguous
+  @gin.register(module='vw11')
+  class M1:
+
+    def __init__(self):
+      pass
+
+    @gin.register
+    def twin(self, a=DA, b=DB):
+      rec('M1.twin', a, b)
+      return (a, b)
+
+  @gin.register(module='vw11')
+  class M2:
+
+    def __init__(self):
+      pass
+
+    @gin.register
+    def twin(self, a=DA, b=DB):
+      rec('M2.twin', a, b)
+      return (a, b)
+
+
+_define_probes()
+
+
+def _w(sel):
+  return gc._REGISTRY[sel].wrapper
+
+
+# expectation: True = must be accepted; False = must raise ValueError; None = the statement does not decide
+# (either outcome, but a rejection must still leave everything as it was); 'any' = must be rejected, the
+# exception type is not fixed (an ambiguous bare method name is a KeyError before it is a ValueError)
 CASES = [
     ('vw.dflt', 'a', True), ('vw.dflt', 'zzz', False), ('vw.kws', 'anything', True),
     ('vw.allow_a', 'a', True), ('vw.allow_a', 'b', False), ('vw.deny_b', 'b', False),
@@ -18,13 +160,95 @@ CASES = [
     ('vw.KmethD.ameth', 'a', True),
     # two functools.wraps layers
     ('vw.wrapped2', 'bogus', False), ('vw.wrapped2', 'b', True),
+    # 25.. VALID keyword-only parameters (second disjunct of the signature test) and their lists; the name of
+    # *varargs is not a parameter; the name of **kw itself is just another keyword
+    ('vw.kwo', 'a', True), ('vw.varkwo', 'b', True), ('vw.allow_kwo', 'k', False), ('vw.allow_kwo', 'a', True),
+    ('vw.deny_kwo', 'k', False), ('vw.deny_kwo', 'a', True), ('vw.var', 'rest', False), ('vw.kws', 'kw', True),
+    ('vw.varkwo', 'rest', False),
+    # 34.. **kwargs configurable with an allowlist / a denylist
+    ('vw11.akw', 'x', True), ('vw11.akw', 'y', False), ('vw11.akw', 'a', False),
+    ('vw11.dkw', 'z', False), ('vw11.dkw', 'q', True), ('vw11.dkw', 'a', True),
+    # 40.. degenerate lists: an EMPTY allowlist may mean "no list" or "nothing allowed" (not decided); an empty
+    # denylist denies nothing under either reading; tuple-valued lists are lists
+    ('vw11.a_empty', 'a', None), ('vw11.a_empty', 'zzz', False), ('vw11.d_empty', 'b', True),
+    ('vw11.d_empty', 'zzz', False), ('vw11.a_tup', 'a', True), ('vw11.a_tup', 'b', False),
+    ('vw11.d_tup', 'b', False), ('vw11.d_tup', 'a', True),
+    # 48.. classes: no __init__/__new__ of their own (the constructor accepts NO keyword), inherited __init__,
+    # only __new__, dataclass
+    ('vw11.Bare', 'zzz', False), ('vw11.BareR', 'zzz', False), ('vw11.Sub', 'a', True), ('vw11.Sub', 'zzz', False),
+    ('vw11.OnlyNew', 'a', True), ('vw11.OnlyNew', 'zzz', False), ('vw11.DC', 'a', True), ('vw11.DC', 'zzz', False),
+    # 56.. callables through external_configurable: functools.partial (keyword / positionally pre-bound), a
+    # functools.wraps wrapper with a narrower own signature (`b` is in the wrapped signature only: not decided),
+    # a callable instance
+    ('vw11.pk', 'b', True), ('vw11.pk', 'zzz', False), ('vw11.pp', 'a', False), ('vw11.pp', 'b', True),
+    ('vw11.narrow', 'a', True), ('vw11.narrow', 'zzz', False), ('vw11.narrow', 'b', None),
+    ('vw11.inst', 'a', True), ('vw11.inst', 'zzz', False),
+    # 65.. a bare method name that two registered classes share; the same method through either class
+    ('twin', 'a', 'any'), ('M1.twin', 'a', True), ('vw11.M2.twin', 'b', True), ('M2.twin', 'zzz', False),
+    # 69.. positional-only parameter: the signature lists `a` but cannot take it by keyword (not decided)
+    ('vw11.po', 'b', True), ('vw11.po', 'zzz', False), ('vw11.po', 'a', None),
 ]
 NCASE = len(CASES)
+assert NCASE == 72, NCASE     # the pre: line of c11_step and the tier splits spell this number
+FULL = {'Kmeth.meth': 'vw.Kmeth.meth', 'M1.twin': 'vw11.M1.twin', 'M2.twin': 'vw11.M2.twin'}
 PATHS = ['string key', 'tuple key', 'scoped string key', 'parse_config flat', 'block member',
          'finalize hook', 'scoped block member', 'finalize hook returning a valid binding first',
-         'two finalize hooks, the valid one first']
+         'two finalize hooks, the valid one first',
+         # 9..
+         'parse_config flat, skip_unknown=True', 'parse_config flat, skip_unknown=[the selector itself, vw.nosuch]',
+         'block member, skip_unknown=True', 'parse_config of a list of strings',
+         'parse_config_file, the binding inside an included file',
+         'parse_config_files_and_bindings([], [...]) with finalize_config=True',
+         # 15..
+         'finalize hook, scoped tuple key', 'finalize hook, scoped string key',
+         'finalize hook returning a ParsedBindingKey', 'two finalize hooks, the attempted one first',
+         'bind_parameter under unlock_config() after finalize()']
+NPATH = len(PATHS)
+TEXT_PATHS = (3, 4, 6, 9, 10, 11, 12, 13, 14)     # the statement before the attempted one takes effect
+SKIP_PATHS = (9, 10, 11)
+LOCKING = (5, 7, 8, 14, 15, 16, 17, 18, 19)        # an accepted attempt ends with the config locked
+SCOPED = (2, 6, 15, 16)
 PRE = [('', 'vw.dflt', 'a'), ('s', 'vw.dflt', 'b'), ('', 'vw.allow_a', 'a'),
        ('', 'vw.Kmeth.meth', 'b')]
+
+
+def _never_injected(case):
+  """After a rejection the probe must still receive its signature defaults."""
+  del world.LOG[:]
+  if case == 4:
+    world.allow_a()
+    return world.LOG[0][1][1] == DB
+  if case == 5:
+    world.deny_b()
+    return world.LOG[0][1][1] == DB
+  if case == 1:
+    world.dflt()
+    return world.LOG[0][2] == {}
+  if case == 27:
+    world.allow_kwo()
+    return world.LOG[0][2] == {'k': 5}
+  if case == 29:
+    world.deny_kwo()
+    return world.LOG[0][2] == {'k': 5}
+  if case in (31, 33):
+    if case == 31:
+      world.var(1)
+      return world.LOG[0][1] == (1, DB) and world.LOG[0][2] == {}
+    world.varkwo(1)
+    return world.LOG[0][1] == (1,) and world.LOG[0][2] == {'b': DB}
+  if case in (35, 36):
+    _w('vw11.akw')()
+    return world.LOG[0][1] == (DA,) and world.LOG[0][2] == {}
+  if case == 37:
+    _w('vw11.dkw')()
+    return world.LOG[0][1] == (DA,) and world.LOG[0][2] == {}
+  if case in (45, 46):
+    _w('vw11.a_tup' if case == 45 else 'vw11.d_tup')()
+    return world.LOG[0][1] == (DA, DB)
+  if case == 58:
+    _w('vw11.pp')()
+    return world.LOG[0][1] == (1, DB)
+  return True
 
 
 def cfg_copy():
@@ -37,20 +261,30 @@ def cfg_copy():
 def c11_step(case: int, path: int, p0: bool, p1: bool, p2: bool, p3: bool,
              v0: int, v1: int, v2: int, v3: int, nv: int) -> bool:
   """
-  pre: 0 <= case < 25 and 0 <= path < 9
+  pre: 0 <= case < 72 and 0 <= path < 20
   """
   world.fresh()
   case = rt.pick(case, NCASE)
-  path = rt.pick(path, 9)
-  sel, param, ok_expected = CASES[case]
+  path = rt.pick(path, NPATH)
+  sel, param, expect = CASES[case]
   pres = [rt.flag(p0), rt.flag(p1), rt.flag(p2), rt.flag(p3)]
   vals = [v0, v1, v2, v3]
   for i in range(4):
     if pres[i]:
       gin.bind_parameter(PRE[i], vals[i])
   gin.constant('vwc.NV', nv)
-  scope = 's' if path in (2, 6) else ''
-  rt.sig(('step', case, path, tuple(pres)), nontrivial=not ok_expected or any(pres))
+  scope = 's' if path in SCOPED else ''
+  rt.sig(('step', case, path, tuple(pres)), nontrivial=expect is not True or any(pres))
+  with rt.native():
+    line = '%s.%s = %%vwc.NV' % (sel, param)
+    block = '%s%s:\n  %s = %%vwc.NV' % ('s/' if path == 6 else '', sel, param)
+    if path == 13:
+      world.use_mem_fs({'main.gin': "vw.src.v = 1\ninclude 'inc.gin'\nvw.src2.v = 2\n",
+                        'inc.gin': line + '\n'})
+  if path == 19:
+    gin.finalize()                         # no hooks: locks, changes nothing
+    if not gin.config_is_locked():
+      return rt.no('finalize() did not lock')
   before = cfg_copy()
   exc = None
   try:
@@ -61,14 +295,9 @@ def c11_step(case: int, path: int, p0: bool, p1: bool, p2: bool, p3: bool,
     elif path == 2:
       gin.bind_parameter('s/' + sel + '.' + param, nv)
     elif path == 3:
-      with rt.native():
-        text = 'vw.src.v = 1\n%s.%s = %%vwc.NV\nvw.src2.v = 2\n' % (sel, param)
-      gin.parse_config(text)
+      gin.parse_config('vw.src.v = 1\n' + line + '\nvw.src2.v = 2\n')
     elif path in (4, 6):
-      with rt.native():
-        text = 'vw.src.v = 1\n%s%s:\n  %s = %%vwc.NV\nvw.src2.v = 2\n' % (
-            's/' if scope else '', sel, param)
-      gin.parse_config(text)
+      gin.parse_config('vw.src.v = 1\n' + block + '\nvw.src2.v = 2\n')
     elif path == 5:
       gin.config.register_finalize_hook(lambda config: {sel + '.' + param: nv})
       gin.finalize()
@@ -77,47 +306,84 @@ def c11_step(case: int, path: int, p0: bool, p1: bool, p2: bool, p3: bool,
           lambda config: {'vw.src2.v': 2, ('s', sel, param): nv} if False else
           {'vw.src2.v': 2, sel + '.' + param: nv})
       gin.finalize()
-    else:
+    elif path == 8:
       gin.config.register_finalize_hook(lambda config: {'vw.src2.v': 2})
       gin.config.register_finalize_hook(lambda config: {sel + '.' + param: nv})
       gin.finalize()
+    elif path == 9:
+      gin.parse_config('vw.src.v = 1\n' + line + '\nvw.src2.v = 2\n', skip_unknown=True)
+    elif path == 10:
+      # a skip list never covers a KNOWN configurable, even when it names it
+      gin.parse_config('vw.src.v = 1\n' + line + '\nvw.src2.v = 2\n', skip_unknown=[sel, 'vw.nosuch'])
+    elif path == 11:
+      gin.parse_config('vw.src.v = 1\n' + block + '\nvw.src2.v = 2\n', skip_unknown=True)
+    elif path == 12:
+      gin.parse_config(['vw.src.v = 1', line, 'vw.src2.v = 2'])
+    elif path == 13:
+      gin.parse_config_file('main.gin')
+    elif path == 14:
+      gin.parse_config_files_and_bindings([], ['vw.src.v = 1', line, 'vw.src2.v = 2'], finalize_config=True)
+    elif path == 15:
+      gin.config.register_finalize_hook(lambda config: {('s', sel, param): nv})
+      gin.finalize()
+    elif path == 16:
+      gin.config.register_finalize_hook(lambda config: {'s/' + sel + '.' + param: nv})
+      gin.finalize()
+    elif path == 17:
+      gin.config.register_finalize_hook(lambda config: {gc.ParsedBindingKey.parse(sel + '.' + param): nv})
+      gin.finalize()
+    elif path == 18:
+      gin.config.register_finalize_hook(lambda config: {sel + '.' + param: nv})
+      gin.config.register_finalize_hook(lambda config: {'vw.src2.v': 2})
+      gin.finalize()
+    else:
+      with gin.unlock_config():
+        gin.bind_parameter(('', sel, param), nv)
   except Exception as e:
     exc = e
   after = cfg_copy()
-  if not ok_expected:
-    if not isinstance(exc, ValueError):
-      return False
+  if expect is None:
+    expect = exc is None                    # not decided by the statement: judge whichever happened
+    etypes = Exception
+  elif expect == 'any':
+    expect, etypes = False, Exception
+  else:
+    etypes = ValueError
+  if not expect and sel == 'vw.nosuch' and path in SKIP_PATHS and exc is None:
+    # an unknown configurable under skip_unknown: skipped silently (the statement's "raises" is waived by the
+    # caller's explicit request) - but NOTHING may be stored for it, and the other statements apply
     want = dict(before)
-    if path in (3, 4, 6):
-      want[('', 'vw.src')] = {'v': 1}    # the statement before the rejected one took effect
+    want[('', 'vw.src')] = {'v': 1}
+    want[('', 'vw.src2')] = {'v': 2}
     if after != want or gin.config_is_locked():
-      return False
-    # a rejected name is never injected by a later call
-    del world.LOG[:]
-    if case == 4:
-      world.allow_a()
-      return world.LOG[0][1][1] == world.DB
-    if case == 5:
-      world.deny_b()
-      return world.LOG[0][1][1] == world.DB
-    if case == 1:
-      world.dflt()
-      return world.LOG[0][2] == {}
+      return rt.no('skipped unknown configurable left a trace')
     return True
+  if not expect:
+    if not isinstance(exc, etypes):
+      return rt.no('rejected binding must raise')
+    want = dict(before)
+    if path in TEXT_PATHS:
+      want[('', 'vw.src')] = {'v': 1}    # the statement before the rejected one took effect
+    if after != want:
+      return rt.no('configuration changed by a rejected binding')
+    if gin.config_is_locked() != (path == 19):
+      return rt.no('lock state after a rejected binding')
+    # a rejected name is never injected by a later call
+    return _never_injected(case)
   if exc is not None:
-    return False
-  full = {'Kmeth.meth': 'vw.Kmeth.meth'}.get(sel, sel)
+    return rt.no('valid binding rejected')
+  full = FULL.get(sel, sel)
 
   want = {}
   for k, d in before.items():
     want[k] = dict(d)
-  if path in (3, 4, 6):
+  if path in TEXT_PATHS:
     want[('', 'vw.src')] = {'v': 1}
     want[('', 'vw.src2')] = {'v': 2}
-  if path in (7, 8):
+  if path in (7, 8, 18):
     want[('', 'vw.src2')] = {'v': 2}
   want.setdefault((scope, full), {})
-  if path in (3, 4, 6):
+  if path in TEXT_PATHS:
     # through text the value is the constant reference; compare by evaluation below
     if set(after) != set(want) or set(after[(scope, full)]) != set(want[(scope, full)]) | {param}:
       return False
@@ -127,27 +393,359 @@ def c11_step(case: int, path: int, p0: bool, p1: bool, p2: bool, p3: bool,
           if not rt.same('keep', after[k][pn], pv):
             return False
     got = gin.get_bindings((scope + '/' if scope else '') + full)
-    return rt.same('bound', got[param], nv)
+    if not rt.same('bound', got[param], nv):
+      return False
+    return gin.config_is_locked() == (path in LOCKING)
   want[(scope, full)][param] = nv
   if after != want:
     return False
-  return gin.config_is_locked() == (path in (5, 7, 8))
+  return gin.config_is_locked() == (path in LOCKING)
+
+
+# ---- registration-time list validation -----------------------------------------------------------------
+TMP = 'vw11.tmp'
+SHAPES = ['function / configurable', 'class / configurable', 'function / external_configurable',
+          'class / register', '**kwargs function / configurable']
+LISTS = [
+    # (allowlist, denylist, REQUIRED default for b, is a control that must register)
+    (['nope'], None, False, False), (None, ['nope'], False, False), (['a'], ['b'], False, False),
+    ({'a'}, None, False, False), ('a', None, False, False), (None, {'b'}, False, False),
+    (None, ['b'], True, False), (['a'], None, True, False), (['a', 'nope'], None, False, False),
+    (None, ('b', 'nope'), False, False),
+    (['a'], None, False, True), (None, ('b',), False, True), (None, None, False, True),
+]
+RPARAMS = ['a', 'b', 'nope']
+
+
+def _forget_tmp():
+  with rt.native():
+    for s_ in list(gc._REGISTRY._selector_map):
+      if s_ == TMP or s_.startswith(TMP + '.'):
+        obj = gc._REGISTRY[s_].wrapped
+        gc._REGISTRY.pop(s_)
+        gc._INVERSE_REGISTRY.pop(obj, None)
+    for obj in [o for o, c in gc._INVERSE_REGISTRY.items() if c.selector == TMP]:
+      gc._INVERSE_REGISTRY.pop(obj, None)
+
+
+def _try_register(shape, al, dl, req):
+  bdef = gin.REQUIRED if req else DB
+  if shape in (0, 2):
+    def target(a=DA, b=bdef):
+      world.rec('tmp', a, b)
+  elif shape == 4:
+    def target(a=DA, b=bdef, **kw):
+      world.rec('tmp', a, b, **kw)
+  else:
+    class target:
+
+      def __init__(self, a=DA, b=bdef):
+        world.rec('tmp', a, b)
+  kw = {}
+  if al is not None:
+    kw['allowlist'] = al
+  if dl is not None:
+    kw['denylist'] = dl
+  if shape in (0, 1, 4):
+    gin.configurable('tmp', module='vw11', **kw)(target)
+  elif shape == 2:
+    gin.external_configurable(target, 'tmp', module='vw11', **kw)
+  else:
+    gin.register('tmp', module='vw11', **kw)(target)
+
+
+def c11_register(shape: int, lk: int, param: int, path: int, pre: bool, nv: int) -> bool:
+  """
+  pre: 0 <= shape < 5 and 0 <= lk < 13 and 0 <= param < 3 and 0 <= path < 4
+  """
+  world.fresh()
+  _forget_tmp()
+  shape = rt.pick(shape, len(SHAPES))
+  lk = rt.pick(lk, len(LISTS))
+  param = RPARAMS[rt.pick(param, 3)]
+  path = rt.pick(path, 4)
+  al, dl, req, control = LISTS[lk]
+  if rt.flag(pre):
+    gin.bind_parameter('vw.dflt.a', 3)
+  gin.constant('vwc.NV', nv)
+  rt.sig(('register', shape, lk, param, path), nontrivial=True)
+  try:
+    with rt.native():
+      names0 = set(gc._REGISTRY._selector_map)
+      objs0 = len(gc._INVERSE_REGISTRY)
+      rexc = None
+      try:
+        _try_register(shape, al, dl, req)
+      except Exception as e:
+        rexc = e
+      if control and rexc is not None:
+        return rt.no('a valid registration was refused: %r' % (rexc,))
+      if rexc is not None:
+        # a registration that raised registered nothing
+        if set(gc._REGISTRY._selector_map) != names0 or len(gc._INVERSE_REGISTRY) != objs0:
+          return rt.no('a refused registration left a registry entry')
+        expect = False
+      else:
+        # (clean tree: only the controls and the **kwargs shape with unknown listed names get here)
+        sig_ok = param in ('a', 'b') or shape == 4
+        stringy = isinstance(al, str) or isinstance(dl, str)
+        in_lists = (not al or param in al) and (not dl or param not in dl)
+        if not sig_ok:
+          expect = False
+        elif stringy or (al is not None and not al):
+          expect = None
+        else:
+          expect = in_lists
+    before = cfg_copy()
+    exc = None
+    try:
+      if path == 0:
+        gin.bind_parameter(TMP + '.' + param, nv)
+      elif path == 1:
+        gin.bind_parameter(('s', 'tmp', param), nv)
+      elif path == 2:
+        gin.parse_config('vw.src.v = 1\n' + TMP + '.' + param + ' = %vwc.NV\nvw.src2.v = 2\n')
+      else:
+        gin.config.register_finalize_hook(lambda config: {'vw.src2.v': 2, 'vw11.tmp.' + param: nv})
+        gin.finalize()
+    except Exception as e:
+      exc = e
+    after = cfg_copy()
+    if expect is None:
+      expect = exc is None
+    want = dict(before)
+    if not expect:
+      if not isinstance(exc, ValueError):
+        return rt.no('binding to %s must be rejected' % ('an unregistered name' if rexc else 'a listed-out / unknown parameter'))
+      if path == 2:
+        want[('', 'vw.src')] = {'v': 1}
+      return (after == want and not gin.config_is_locked()) or rt.no('configuration changed by a rejected binding')
+    if exc is not None:
+      return rt.no('valid binding rejected')
+    if path == 2:
+      want[('', 'vw.src')] = {'v': 1}
+      want[('', 'vw.src2')] = {'v': 2}
+      key = ('', TMP)
+      if set(after) != set(want) | {key} or set(after[key]) != {param}:
+        return rt.no('text binding stored under the wrong key')
+      return rt.same('bound', gin.get_bindings(TMP)[param], nv)
+    if path == 3:
+      want[('', 'vw.src2')] = {'v': 2}
+    want[('s' if path == 1 else '', TMP)] = {param: nv}
+    return after == want or rt.no('accepted binding not stored as given')
+  finally:
+    _forget_tmp()
+
+
+# ---- dynamic registration: the configurable is registered on the fly, WITHOUT lists, while its binding is parsed --
+_sys.path.insert(0, _os.path.join(_os.path.dirname(_os.path.dirname(_os.path.dirname(
+    _os.path.abspath(__file__)))), 'fixtures'))
+import vf11x.mod as _DM     # decorated (with lists) at import, under the Gin module path vf11xdec
+DR = 'from __gin__ import dynamic_registration\nimport vfx.alpha.mod as am\nimport vf11x.mod as dm\n'
+DYN = [('fn', 'x', True), ('fn', 'zzz', False), ('Cls', 'x', True), ('Cls', 'zzz', False),
+       ('Cls.meth', 'm', True), ('Cls.meth', 'zzz', False), ('Cls.meth', 'self', None),
+       ('nosuch', 'a', 'any'), ('meth', 'm', 'any'), ('consumer', 'q', True), ('Outer.Inner', 'y', True),
+       ('Outer.Inner', 'x', False),
+       # 12.. configurables that were decorated WITH lists before, now addressed through the import: lists are kept
+       ('dm.dfn', 'x', True), ('dm.dfn', 'y', False), ('dm.dfn', 'zzz', False),
+       ('dm.ACls', 'x', True), ('dm.ACls', 'y', False)]
+DM_SEL = {'dm.dfn': 'vf11xdec.dfn', 'dm.ACls': 'vf11xdec.ACls'}
+
+
+def _cleanup_dyn():
+  """Forgets everything dynamic registration registered from vfx.* (this process imports no decorated vfx module)."""
+  with rt.native():
+    for sel_ in list(gc._REGISTRY._selector_map):
+      mod_ = getattr(gc._REGISTRY[sel_].wrapped, '__module__', '') or ''
+      if mod_.startswith('vfx.'):
+        gc._REGISTRY.pop(sel_)
+    for obj in list(gc._INVERSE_REGISTRY):
+      if (getattr(obj, '__module__', '') or '').startswith('vfx.'):
+        del gc._INVERSE_REGISTRY[obj]
+    for old_, new_ in list(gc._RENAMED_SELECTORS.items()):
+      if new_.startswith('vfx.') or old_.startswith('vfx.'):
+        del gc._RENAMED_SELECTORS[old_]
+
+
+def c11_dynamic(kind: int, form: int, prereg: bool, pre: bool, v0: int, nv: int) -> bool:
+  """
+  pre: 0 <= kind < 17 and 0 <= form < 4
+  """
+  world.fresh()
+  _cleanup_dyn()
+  kind = rt.pick(kind, len(DYN))
+  form = rt.pick(form, 4)          # flat / block / scoped flat / scoped block
+  prereg = rt.flag(prereg)
+  pre = rt.flag(pre)
+  name, param, expect = DYN[kind]
+  scope = 's' if form >= 2 else ''
+  gin.constant('vwc.NV', nv)
+  rt.sig(('dynamic', kind, form, prereg, pre), nontrivial=True)
+  try:
+    with rt.native():
+      if prereg:
+        # an earlier parse already registered everything: the binding then meets an existing registration
+        gin.parse_config(DR + 'am.fn.y = 1\nam.Cls.x = 0\nam.Cls.meth.m = 0\nam.consumer.q = 0\nam.Outer.Inner.y = 0\n')
+        gc._CONFIG.clear()
+        gc._CONFIG_PROVENANCE.clear()
+      pfx = 's/' if scope else ''
+      dotted = name if name in DM_SEL else 'am.' + name
+      if form in (0, 2):
+        stmt = '%s%s.%s = %%vwc.NV' % (pfx, dotted, param)
+      else:
+        stmt = '%s%s:\n  %s = %%vwc.NV' % (pfx, dotted, param)
+      text = DR + 'am.consumer.p = 1\n' + stmt + '\nam.fn.y = 2\n'
+    if pre:
+      gin.bind_parameter('vw.dflt.a', v0)
+    before = cfg_copy()
+    exc = None
+    try:
+      gin.parse_config(text)
+    except Exception as e:
+      exc = e
+    after = cfg_copy()
+    ckey = [k for k in after if k[0] == '' and k[1].endswith('.consumer')]
+    etypes = ValueError
+    if expect is None:
+      expect, etypes = exc is None, Exception
+    elif expect == 'any':
+      expect, etypes = False, Exception
+    if not expect:
+      if not isinstance(exc, etypes):
+        return rt.no('rejected binding must raise')
+      if len(ckey) != 1 or after.pop(ckey[0]) != {'p': 1}:
+        return rt.no('the statement before the rejected one is missing')
+      return (after == before and not gin.config_is_locked()) or rt.no('configuration changed by a rejected binding')
+    if exc is not None:
+      return rt.no('valid binding rejected')
+    tkey = [k for k in after if k[0] == scope and (k[1] == DM_SEL[name] if name in DM_SEL else
+                                                   k[1].endswith('.am.' + name))]
+    fkey = [k for k in after if k[0] == '' and k[1].endswith('.am.fn')]
+    if len(ckey) != 1 or len(tkey) != 1 or len(fkey) != 1:
+      return rt.no('unexpected configuration keys')
+    want = {}
+    for k, d in before.items():
+      want[k] = dict(d)
+    want.setdefault(ckey[0], {})['p'] = 1
+    want.setdefault(fkey[0], {})['y'] = 2
+    if param not in after[tkey[0]]:
+      return rt.no('accepted binding not stored')
+    got = gin.get_bindings((scope + '/' if scope else '') + tkey[0][1])[param]
+    del after[tkey[0]][param]
+    want.setdefault(tkey[0], {})
+    if not rt.same('others', after, want):
+      return False
+    return rt.same('bound', got, nv)
+  finally:
+    _cleanup_dyn()
 
 
 HARNESSES = {
     'c11_step': dict(
         fn='c11_step',
         anchors=['gin.config:parse', 'gin.config:_might_have_parameter', 'gin.config:bind_parameter',
-                 'gin.config:finalize', 'gin.config:parse_config'],
+                 'gin.config:finalize', 'gin.config:parse_config', 'gin.config:_should_skip',
+                 'gin.config:parse_config_file', 'gin.config:parse_config_files_and_bindings',
+                 'gin.config:unlock_config'],
         smoke=[dict(case=4, path=4, p0=True, p1=True, p2=False, p3=True, v0=1, v1=2, v2=3, v3=4, nv=9),
                dict(case=8, path=5, p0=True, p1=False, p2=True, p3=False, v0=1, v1=2, v2=3, v3=4, nv=9),
-               dict(case=9, path=3, p0=False, p1=False, p2=False, p3=False, v0=1, v1=2, v2=3, v3=4, nv=9)],
-        tiers={'quick': dict(split=dict(case=list(range(25)), path=list(range(9))),
-                             fixed=dict(p2=False, p3=False), budget_s=100),
-               'thorough': dict(split=dict(case=list(range(25)), path=list(range(9))), budget_s=300)},
+               dict(case=9, path=3, p0=False, p1=False, p2=False, p3=False, v0=1, v1=2, v2=3, v3=4, nv=9),
+               # keyword-only parameters and their lists, *varargs / **kw names
+               dict(case=25, path=9, p0=True, p1=False, p2=False, p3=False, v0=1, v1=2, v2=3, v3=4, nv=9),
+               dict(case=27, path=10, p0=False, p1=True, p2=False, p3=False, v0=1, v1=2, v2=3, v3=4, nv=9),
+               dict(case=29, path=11, p0=False, p1=False, p2=False, p3=False, v0=1, v1=2, v2=3, v3=4, nv=9),
+               dict(case=31, path=12, p0=False, p1=False, p2=False, p3=False, v0=1, v1=2, v2=3, v3=4, nv=9),
+               dict(case=32, path=13, p0=True, p1=True, p2=False, p3=False, v0=1, v1=2, v2=3, v3=4, nv=9),
+               # unknown configurable under skip_unknown; included file; files_and_bindings
+               dict(case=7, path=9, p0=True, p1=False, p2=False, p3=False, v0=1, v1=2, v2=3, v3=4, nv=9),
+               dict(case=7, path=11, p0=False, p1=False, p2=False, p3=False, v0=1, v1=2, v2=3, v3=4, nv=9),
+               dict(case=1, path=13, p0=True, p1=False, p2=False, p3=False, v0=1, v1=2, v2=3, v3=4, nv=9),
+               dict(case=5, path=14, p0=False, p1=False, p2=False, p3=False, v0=1, v1=2, v2=3, v3=4, nv=9),
+               dict(case=6, path=14, p0=False, p1=False, p2=False, p3=False, v0=1, v1=2, v2=3, v3=4, nv=9),
+               # **kwargs with lists, degenerate / tuple lists
+               dict(case=35, path=15, p0=False, p1=False, p2=False, p3=False, v0=1, v1=2, v2=3, v3=4, nv=9),
+               dict(case=38, path=16, p0=False, p1=True, p2=False, p3=False, v0=1, v1=2, v2=3, v3=4, nv=9),
+               dict(case=40, path=0, p0=False, p1=False, p2=False, p3=False, v0=1, v1=2, v2=3, v3=4, nv=9),
+               dict(case=45, path=17, p0=False, p1=False, p2=False, p3=False, v0=1, v1=2, v2=3, v3=4, nv=9),
+               # class shapes, callable shapes, ambiguous bare method, positional-only
+               dict(case=51, path=18, p0=False, p1=False, p2=False, p3=False, v0=1, v1=2, v2=3, v3=4, nv=9),
+               dict(case=53, path=19, p0=True, p1=False, p2=False, p3=False, v0=1, v1=2, v2=3, v3=4, nv=9),
+               dict(case=54, path=19, p0=True, p1=False, p2=False, p3=False, v0=1, v1=2, v2=3, v3=4, nv=9),
+               dict(case=58, path=1, p0=False, p1=False, p2=False, p3=False, v0=1, v1=2, v2=3, v3=4, nv=9),
+               dict(case=62, path=3, p0=False, p1=False, p2=False, p3=False, v0=1, v1=2, v2=3, v3=4, nv=9),
+               dict(case=63, path=2, p0=False, p1=False, p2=False, p3=False, v0=1, v1=2, v2=3, v3=4, nv=9),
+               dict(case=65, path=4, p0=False, p1=False, p2=False, p3=False, v0=1, v1=2, v2=3, v3=4, nv=9),
+               dict(case=66, path=6, p0=False, p1=False, p2=False, p3=False, v0=1, v1=2, v2=3, v3=4, nv=9),
+               dict(case=71, path=0, p0=False, p1=False, p2=False, p3=False, v0=1, v1=2, v2=3, v3=4, nv=9),
+               dict(case=48, path=0, p0=False, p1=False, p2=False, p3=False, v0=1, v1=2, v2=3, v3=4, nv=9)],
+        tiers={'quick': dict(split=dict(case=list(range(72))),
+                             fixed=dict(p2=False, p3=False), budget_s=150),
+               'thorough': dict(split=dict(case=list(range(72)), p3=[False, True]), budget_s=300)},
         bounds='inductive step: arbitrary subset of 4 existing bindings (2 in quick) with symbolic values, then '
-               'one attempted binding: 25 (configurable, parameter) cases (valid, unknown parameter, **kwargs '
-               'catch-all, allow-listed / not, deny-listed / not, unknown configurable, method through class, '
-               'bare method name, class, function behind a functools.wraps decorator with and without a denylist) x 9 API paths (string key, tuple key, scoped key, parse_config flat, '
-               'block member, scoped block member, finalize hook alone / after a valid entry of the same hook / after a valid hook); values: all ints'),
+               'one attempted binding: 72 (configurable, parameter) cases x 20 API paths. Cases: valid, unknown parameter, '
+               '**kwargs catch-all (also the name of **kw itself), allow-listed / not, deny-listed / not, unknown configurable, '
+               'method through class, bare method name, bare method name shared by two classes, class, function behind one / two '
+               'functools.wraps decorators with and without a denylist, methods with their own lists, VALID keyword-only '
+               'parameters with and without *varargs and with allow / deny lists on them, the *varargs name, **kwargs '
+               'configurables WITH an allowlist / a denylist, empty and tuple-valued lists, classes without an own '
+               '__init__ (configurable and register), with an inherited __init__, with only __new__, a dataclass, '
+               'functools.partial objects (keyword / positionally pre-bound), a functools.wraps wrapper with a narrower own '
+               'signature, a callable instance, a positional-only parameter. Paths: string key, tuple key, scoped key, '
+               'parse_config flat, block member, scoped block member, finalize hook alone / after a valid entry of the same '
+               'hook / after a valid hook / before a valid hook, hook keys as scoped tuple, scoped string and '
+               'ParsedBindingKey, parse_config with skip_unknown=True (flat and block) and with a skip list naming the '
+               'selector itself, list-of-strings input, parse_config_file with the binding in an included file, '
+               'parse_config_files_and_bindings with finalize_config=True, bind_parameter under unlock_config() after '
+               'finalize(); values: all ints'),
+    'c11_register': dict(
+        fn='c11_register',
+        anchors=['gin.config:_make_configurable', 'gin.config:_validate_parameters', 'gin.config:parse'],
+        smoke=[dict(shape=0, lk=0, param=0, path=0, pre=True, nv=9),
+               dict(shape=1, lk=2, param=1, path=1, pre=False, nv=9),
+               dict(shape=2, lk=3, param=0, path=2, pre=False, nv=9),
+               dict(shape=3, lk=6, param=1, path=3, pre=True, nv=9),
+               dict(shape=4, lk=0, param=2, path=0, pre=False, nv=9),
+               dict(shape=4, lk=8, param=1, path=2, pre=False, nv=9),
+               dict(shape=1, lk=10, param=0, path=3, pre=False, nv=9),
+               dict(shape=3, lk=11, param=1, path=2, pre=False, nv=9)],
+        tiers={'quick': dict(split=dict(lk=list(range(13))), budget_s=100),
+               'thorough': dict(split=dict(shape=list(range(5)), lk=list(range(13))), budget_s=300)},
+        bounds='registration of a NEW configurable vw11.tmp: 5 shapes (function / class through configurable, function '
+               'through external_configurable, class through register, **kwargs function) x 13 list arguments (unknown name '
+               'in the allowlist / denylist alone or beside a valid one, both lists, set- and str-typed lists, a '
+               'signature-REQUIRED parameter denylisted / not allowlisted, 3 valid controls), then one attempted binding '
+               'of a / b / nope through 4 paths (string key, scoped tuple key with the short selector, config text, finalize '
+               'hook after a valid entry), with and without an unrelated existing binding'),
+    'c11_dynamic': dict(
+        fn='c11_dynamic',
+        anchors=['gin.config:_register', 'gin.config:_might_have_parameter', 'gin.config:parse_config'],
+        smoke=[dict(kind=1, form=0, prereg=False, pre=True, v0=3, nv=9),
+               dict(kind=0, form=1, prereg=False, pre=False, v0=3, nv=9),
+               dict(kind=5, form=3, prereg=False, pre=False, v0=3, nv=9),
+               dict(kind=4, form=2, prereg=True, pre=False, v0=3, nv=9),
+               dict(kind=7, form=0, prereg=False, pre=True, v0=3, nv=9),
+               dict(kind=11, form=1, prereg=True, pre=True, v0=3, nv=9),
+               dict(kind=13, form=0, prereg=False, pre=False, v0=3, nv=9),
+               dict(kind=15, form=3, prereg=False, pre=True, v0=3, nv=9),
+               dict(kind=16, form=1, prereg=True, pre=False, v0=3, nv=9)],
+        tiers={'quick': dict(split=dict(kind=list(range(17))), budget_s=100),
+               'thorough': dict(split=dict(kind=list(range(17)), form=[0, 1, 2, 3]), budget_s=300)},
+        bounds='dynamic registration against the fixture packages vfx.alpha.mod / vf11x.mod: 17 (target, parameter) kinds (function, '
+               'class, method of a class, nested class: valid and unknown parameter; `self` of a method; missing '
+               'attribute; bare method name; a function / class decorated earlier with a denylist / an allowlist: listed, '
+               'unlisted, unknown) x 4 forms (flat, block, scoped flat, scoped block) x target already '
+               'registered by an earlier parse or registered on the fly by this binding x an unrelated existing binding'),
 }
+
+OUTSIDE = ('Not judged (the statement does not decide): whether `self` / `cls` / a positional-only parameter / a parameter '
+           'only the wrapped function of a narrower functools.wraps wrapper has / any name under an EMPTY allowlist is '
+           'bindable (either outcome is accepted, a rejection must still leave everything unchanged); non-identifier '
+           'parameter strings on **kwargs configurables; malformed key containers (2-/4-tuples, int keys); bare method '
+           'names through paths that make no binding (@meth references, get_configurable, get_bindings); whether a '
+           'registration with an unknown listed name / both lists / a wrongly typed list must itself raise (demanded '
+           'only: a registration that raised registered nothing, one that went through obeys its lists); re-registration '
+           'in interactive mode; registry contents after a rejected dynamic-registration binding.')
+ASSUMPTIONS = ['c11_register removes its temporary configurable vw11.tmp from the private gin.config._REGISTRY / '
+               '_INVERSE_REGISTRY before and after every path',
+               'an unknown configurable under skip_unknown may be skipped silently (documented opt-in) but nothing may be '
+               'stored for it']
